@@ -111,6 +111,8 @@ InitCalls ==
   \cup {[C("InitAdd") EXCEPT !.g = g, !.v = v] : g \in G, v \in V}
   \cup {[C("Register") EXCEPT !.g = g, !.v = v] : g \in G, v \in V}
   \cup {[C("SetName") EXCEPT !.v = v, !.name = nm] : v \in V, nm \in Names0}
+  \cup {[C("InitSetdefault") EXCEPT !.g = g, !.name = nm, !.v = v] : g \in G, nm \in NamePool, v \in PV}
+  \cup {[C("InitUpdate2") EXCEPT !.g = g, !.v = v, !.w = w] : g \in G, v \in PV, w \in PV}
 
 NodeCalls ==
      {[C("ReplaceInput") EXCEPT !.n = n, !.i = i, !.v = v] : n \in N, i \in {0, 1, 2}, v \in PV \cup {0}}
@@ -127,6 +129,8 @@ GraphCalls ==
   \cup {[C("GInsertBefore") EXCEPT !.g = g, !.n = a, !.vs = ns] : g \in G, a \in N, ns \in [1..1 -> N] \cup NPairs2}
   \cup {[C("GInsertAfter") EXCEPT !.g = g, !.n = a, !.vs = ns] : g \in G, a \in N, ns \in [1..1 -> N] \cup NPairs2}
   \cup {[C("GRemove") EXCEPT !.g = g, !.vs = ns, !.flag = f] : g \in G, ns \in [1..1 -> N] \cup NPairs2, f \in BOOLEAN}
+  \cup {[C("NodePrepend") EXCEPT !.n = a, !.vs = ns] : a \in N, ns \in [1..1 -> N]}
+  \cup {[C("NodeAppend") EXCEPT !.n = a, !.vs = ns] : a \in N, ns \in [1..1 -> N]}
 
 \* Node(...): few input shapes (none / one / the same value twice / value and None), fresh or supplied outputs
 NewNodeCalls ==
